@@ -88,39 +88,284 @@ pub proof fn lemma_u16_dims(w: int, h: int)
 }
 """, mod="rle", name="codec_specs")
 
+planar_specs = Raw(r"""
+// ===== MS-RDPEGDI 3.1.9.2 / 2.2.2.5.1: RLE of one colour plane, written from the specification text =====
+/// control byte of a segment: low nibble nRunLength, high nibble cRawBytes
+pub open spec fn seg_nrun(ctrl: u8) -> u8 { ctrl & 0x0f }
+pub open spec fn seg_craw(ctrl: u8) -> u8 { (ctrl >> 4) & 0x0f }
+/// run length of the segment (long-run forms: nRunLength 1 -> cRawBytes + 16, nRunLength 2 -> cRawBytes + 32)
+pub open spec fn seg_run(ctrl: u8) -> nat {
+    if seg_nrun(ctrl) == 1 { (seg_craw(ctrl) + 16) as nat } else if seg_nrun(ctrl) == 2 { (seg_craw(ctrl) + 32) as nat } else { seg_nrun(ctrl) as nat }
+}
+/// number of raw bytes of the segment (none in the long-run forms)
+pub open spec fn seg_raw(ctrl: u8) -> nat {
+    if seg_nrun(ctrl) == 1 || seg_nrun(ctrl) == 2 { 0 } else { seg_craw(ctrl) as nat }
+}
+/// delta carried by a raw byte of a scanline other than the first one
+pub open spec fn delta_of(d: u8) -> int { if d & 1 != 0 { -(((d >> 1) as int) + 1) } else { (d >> 1) as int } }
+/// value of column j: absolute in the first encoded scanline, previous scanline + delta (mod 256) afterwards
+pub open spec fn plane_out(prev: Option<Seq<u8>>, j: int, v: int) -> u8 {
+    match prev { None => v as u8, Some(p) => ((p[j] as int + v) % 256) as u8 }
+}
+/// decoder of one scanline at the granularity of single values.  State: `raw` raw bytes and then `run` repetitions are left in the
+/// current segment, `last` is the last raw value (first scanline) or delta (others), `acc` the values produced so far, `n` the bytes consumed.
+/// None: malformed (a segment overruns the scanline, or the input ends early).
+pub open spec fn scan(s: Seq<u8>, width: nat, prev: Option<Seq<u8>>, raw: nat, run: nat, last: int, acc: Seq<u8>, n: nat) -> Option<(Seq<u8>, nat)>
+    decreases s.len(), raw + run
+{
+    if raw > 0 {
+        if acc.len() >= width || s.len() == 0 { None }
+        else {
+            let v = if prev is None { s[0] as int } else { delta_of(s[0]) };
+            scan(s.skip(1), width, prev, (raw - 1) as nat, run, v, acc.push(plane_out(prev, acc.len() as int, v)), n + 1)
+        }
+    } else if run > 0 {
+        if acc.len() >= width { None }
+        else { scan(s, width, prev, 0, (run - 1) as nat, last, acc.push(plane_out(prev, acc.len() as int, last)), n) }
+    } else if acc.len() == width { Some((acc, n)) }
+    else if s.len() == 0 { None }
+    else { scan(s.skip(1), width, prev, seg_raw(s[0]), seg_run(s[0]), last, acc, n + 1) }
+}
+/// one scanline: (values, bytes consumed)
+pub open spec fn decode_scanline(input: Seq<u8>, width: nat, prev: Option<Seq<u8>>) -> Option<(Seq<u8>, nat)> {
+    scan(input, width, prev, 0, 0, 0, Seq::empty(), 0)
+}
+pub open spec fn planes_from(s: Seq<u8>, width: nat, rows: nat, prev: Option<Seq<u8>>, lines: Seq<Seq<u8>>, n: nat) -> Option<(Seq<Seq<u8>>, nat)>
+    decreases rows
+{
+    if rows == 0 { Some((lines, n)) }
+    else {
+        match decode_scanline(s, width, prev) {
+            None => None,
+            Some((line, k)) => planes_from(s.skip(k as int), width, (rows - 1) as nat, Some(line), lines.push(line), n + k),
+        }
+    }
+}
+/// one plane: (scanlines in decode order = bottom row first, bytes consumed)
+pub open spec fn decode_plane(input: Seq<u8>, width: nat, height: nat) -> Option<(Seq<Seq<u8>>, nat)> {
+    planes_from(input, width, height, None, Seq::empty(), 0)
+}
+
+// ----- the control byte as the code computes it
+pub proof fn lemma_ctrl(code: u8)
+    ensures ({
+        let replen = code & 0xf; let collen = (code >> 4) & 0xf; let revcode = (replen << 4) | collen;
+        &&& (16 <= revcode <= 47 ==> seg_run(code) == revcode && seg_raw(code) == 0)
+        &&& (!(16 <= revcode <= 47) ==> seg_run(code) == replen && seg_raw(code) == collen)
+    })
+{
+    assert({
+        let replen = code & 0xf; let collen = (code >> 4) & 0xf; let revcode = (replen << 4) | collen;
+        let n = code & 0x0f; let c = (code >> 4) & 0x0f;
+        &&& (16 <= revcode <= 47 ==> (n == 1 && revcode == c + 16 || n == 2 && revcode == c + 32) && c <= 15)
+        &&& (!(16 <= revcode <= 47) ==> n != 1 && n != 2)
+    }) by(bit_vector);
+}
+pub proof fn lemma_shr1(d: u8) ensures d >> 1 <= 127 { assert(d >> 1 <= 127) by(bit_vector); }
+pub proof fn lemma_i8u8(b: u8) ensures (b as i8) as u8 == b { assert((b as i8) as u8 == b) by(bit_vector); }
+pub proof fn lemma_trunc(s: i32)
+    requires -128 <= s < 512
+    ensures (s as u8) as int == (s as int) % 256
+{
+    assert(s as u8 == (if s < 0 { (s + 256) as u8 } else if s >= 256 { (s - 256) as u8 } else { s as u8 })) by(bit_vector) requires -128 <= s < 512;
+}
+pub proof fn lemma_row_pos(h: int, w: int, i: int, n: int, j: int)
+    requires 0 <= i < n <= h, 0 <= j < w
+    ensures ((h - 1 - i) * w + j) * 4 >= (h - n) * w * 4, ((h - 1 - i) * w + j) * 4 + 4 <= w * h * 4, (h - n) * w >= 0
+{
+    assert((h - 1 - i) * w >= (h - n) * w) by(nonlinear_arith) requires h - 1 - i >= h - n, w >= 0;
+    assert((h - 1 - i) * w + w <= h * w) by(nonlinear_arith) requires h - 1 - i + 1 <= h, w >= 0;
+    assert(h * w == w * h) by(nonlinear_arith);
+    assert((h - n) * w >= 0) by(nonlinear_arith) requires h - n >= 0, w >= 0;
+}
+
+// ===== MS-RDPEGDI 2.2.2.5.1 RDP6_BITMAP_STREAM as accepted by the code: FormatHeader 0x10 (RLE, alpha plane present, no colour loss,
+// no chroma subsampling), then the planes Alpha, Red, Green, Blue =====
+/// the four decoded planes indexed by their byte offset inside a BGRA pixel: [blue, green, red, alpha]
+pub open spec fn planar_decode(input: Seq<u8>, w: nat, h: nat) -> Option<Seq<Seq<Seq<u8>>>> {
+    if input.len() < 1 || input[0] != 0x10 { None } else {
+        let s0 = input.skip(1);
+        match decode_plane(s0, w, h) { None => None, Some((pa, na)) => {
+        let s1 = s0.skip(na as int);
+        match decode_plane(s1, w, h) { None => None, Some((pr, nr)) => {
+        let s2 = s1.skip(nr as int);
+        match decode_plane(s2, w, h) { None => None, Some((pg, ng)) => {
+        let s3 = s2.skip(ng as int);
+        match decode_plane(s3, w, h) { None => None, Some((pb, nb)) => Some(seq![pb, pg, pr, pa]) } } } } } } }
+    }
+}
+/// byte k of the top-down BGRA image: pixel k / 4, image row (k / 4) / w = decode row h - 1 - (k / 4) / w
+pub open spec fn planar_pixel(planes: Seq<Seq<Seq<u8>>>, w: nat, h: nat, k: int) -> u8 {
+    planes[k % 4][h - 1 - (k / 4) / (w as int)][(k / 4) % (w as int)]
+}
+pub open spec fn planar_image(input: Seq<u8>, w: nat, h: nat) -> Option<Seq<u8>> {
+    match planar_decode(input, w, h) {
+        None => None,
+        Some(planes) => Some(Seq::new(w * h * 4, |k: int| planar_pixel(planes, w, h, k))),
+    }
+}
+pub proof fn lemma_pixel_index(w: int, h: int, k: int)
+    requires 0 <= k < w * h * 4, w > 0, h > 0
+    ensures ({ let p = k / 4; let row = p / w; let col = p % w;
+        0 <= row < h && 0 <= col < w && 0 <= k % 4 < 4 && k == k % 4 + ((h - 1 - (h - 1 - row)) * w + col) * 4 })
+{
+    let p = k / 4;
+    vstd::arithmetic::div_mod::lemma_fundamental_div_mod(p, w);
+    vstd::arithmetic::div_mod::lemma_mod_bound(p, w);
+    let row = p / w;
+    assert(p < w * h);
+    if row >= h { assert(w * row >= w * h) by(nonlinear_arith) requires row >= h, w > 0; }
+    if row < 0 { assert(w * row <= -w) by(nonlinear_arith) requires row <= -1, w > 0; }
+    assert(w * row == row * w) by(nonlinear_arith);
+}
+""", mod="rle", name="planar_specs")
+
 
 PP_COMMON = """output@.len() == old(output)@.len(), width * height * 4 <= output@.len() + 3, width * height * 4 <= usize::MAX, indexh < height,
             this_line + width * 4 <= width * height * 4,
             (last_line == 0 || last_line + width * 4 <= width * height * 4),
             indexw <= width, out == this_line + indexw * 4"""
+# functional part shared by the six per-scanline loops; RAW/RUN = what is left of the current segment
+PP_LINE = """this_line % 4 == 0, acc.len() == indexw, o0.len() == output@.len(),
+            forall|j: int| 0 <= j < indexw ==> output@[this_line + j * 4] == #[trigger] acc[j],
+            forall|k: int| 0 <= k < output@.len() && !(this_line <= k < this_line + indexw * 4 && k % 4 == 0) ==> #[trigger] output@[k] == o0[k],
+            forall|k: int| 0 <= k < o0.len() && (k % 4 != 0 || k >= width * height * 4) ==> #[trigger] o0[k] == old(output)@[k],
+            cons <= ls.len(), input.rest() == ls.skip(cons as int),
+            prev is Some ==> prev->Some_0.len() == width,
+            decode_scanline(ls, width as nat, prev) is None ==> decode_plane(b, width as nat, height as nat) is None,
+            decode_scanline(ls, width as nat, prev) == scan(input.rest(), width as nat, prev, RAW, RUN, last, acc, cons)"""
+PP_FIRST = ", (prev is None || width == 0), last == (color as u8) as int"
+PP_DELTA = """, last_line != 0, prev is Some, last == color as int, last_line == this_line + width * 4,
+            forall|j: int| 0 <= j < width ==> output@[last_line + j * 4] == #[trigger] prev->Some_0[j]"""
+def pp_line(raw, run):
+    return ", " + PP_LINE.replace("RAW", raw).replace("RUN", run)
 PP_LOOPS = {
     1: """invariant output@.len() == old(output)@.len(), width * height * 4 <= output@.len() + 3, width * height * 4 <= usize::MAX, indexh <= height,
-            (last_line == 0 || last_line + width * 4 <= width * height * 4)
+            (last_line == 0 || last_line + width * 4 <= width * height * 4),
+            indexh == 0 ==> last_line == 0,
+            indexh > 0 ==> last_line == (height - indexh) * width * 4,
+            lines.len() == indexh, forall|i: int| 0 <= i < indexh ==> (#[trigger] lines[i]).len() == width,
+            consumed <= b.len(), input.rest() == b.skip(consumed as int),
+            decode_plane(b, width as nat, height as nat) == planes_from(input.rest(), width as nat, (height - indexh) as nat,
+                if indexh == 0 { None } else { Some(lines[indexh - 1]) }, lines, consumed),
+            forall|i: int, j: int| 0 <= i < indexh && 0 <= j < width ==> output@[((height - 1 - i) * width + j) * 4] == #[trigger] lines[i][j],
+            forall|k: int| 0 <= k < output@.len() && (k % 4 != 0 || k >= width * height * 4) ==> #[trigger] output@[k] == old(output)@[k]
           decreases height - indexh""",
-    2: "invariant " + PP_COMMON + "\n decreases input.rest().len()",
-    3: "invariant " + PP_COMMON + ", input.rest().len() < rl\n decreases collen",
-    4: "invariant " + PP_COMMON + ", input.rest().len() < rl\n decreases replen",
-    5: "invariant " + PP_COMMON + ", last_line != 0\n decreases input.rest().len()",
-    6: "invariant " + PP_COMMON + ", last_line != 0, input.rest().len() < rl\n decreases collen",
-    7: "invariant " + PP_COMMON + ", last_line != 0, input.rest().len() < rl\n decreases replen",
+    2: "invariant " + PP_COMMON + pp_line("0", "0") + PP_FIRST + "\n decreases input.rest().len()",
+    3: "invariant " + PP_COMMON + pp_line("collen as nat", "replen as nat") + PP_FIRST + ", input.rest().len() < rl\n decreases collen",
+    4: "invariant " + PP_COMMON + pp_line("0", "replen as nat") + PP_FIRST + ", input.rest().len() < rl\n decreases replen",
+    5: "invariant " + PP_COMMON + pp_line("0", "0") + PP_DELTA + "\n decreases input.rest().len()",
+    6: "invariant " + PP_COMMON + pp_line("collen as nat", "replen as nat") + PP_DELTA + ", input.rest().len() < rl\n decreases collen",
+    7: "invariant " + PP_COMMON + pp_line("0", "replen as nat") + PP_DELTA + ", input.rest().len() < rl\n decreases replen",
 }
+PP_PRE = """let ghost b = input.rest(); let ghost mut lines: Seq<Seq<u8>> = Seq::empty(); let ghost mut consumed: nat = 0;
+proof { assert(b.skip(0) =~= b); }"""
+PP_CTRL = """proof { lemma_ctrl(code); cons = cons + 1; assert(input.rest() =~= ls.skip(cons as int));
+    assert(scan(s0, width as nat, prev, 0, 0, last, acc, (cons - 1) as nat) == scan(s0.skip(1), width as nat, prev, seg_raw(code), seg_run(code), last, acc, cons)); }"""
+PP_OVERRUN = "proof { assert(decode_scanline(ls, width as nat, prev) is None); assert(decode_plane(b, width as nat, height as nat) is None); }"
+PP_RUN = """proof { assert(scan(input.rest(), width as nat, prev, 0, replen as nat, last, acc, cons)
+        == scan(input.rest(), width as nat, prev, 0, (replen - 1) as nat, last, acc.push(plane_out(prev, acc.len() as int, last)), cons));
+    acc = acc.push(plane_out(prev, acc.len() as int, last)); }"""
 PP_HINTS = [
-    (r"x = x >> 1;", 1, "proof { assert(x >> 1 <= 127) by(bit_vector); }", "before"),
     (r"let mut out = ", 1, "proof { lemma_rows(width as int, height as int, indexh as int); }", "before"),
-    (r"code = input\.read_u8\(\)\?;", 1, "let ghost rl = input.rest().len();", "before"),
-    (r"code = input\.read_u8\(\)\?;", 2, "let ghost rl = input.rest().len();", "before"),
+    (r"indexw = 0;", 1, """let ghost prev: Option<Seq<u8>> = if indexh == 0 { None } else { Some(lines[indexh - 1]) };
+let ghost ls = input.rest(); let ghost o0 = output@;
+let ghost mut acc: Seq<u8> = Seq::empty(); let ghost mut cons: nat = 0; let ghost mut last: int = 0;
+proof { assert(ls.skip(0) =~= ls);
+    if indexh > 0 {
+        assert forall|j: int| 0 <= j < width implies output@[last_line + j * 4] == #[trigger] lines[indexh - 1][j] by {
+            assert(((height - 1 - (indexh - 1)) * width + j) * 4 == last_line + j * 4);
+        }
+    }
+}"""),
+    (r"code = input\.read_u8\(\)\?;", 1, "let ghost rl = input.rest().len(); let ghost s0 = input.rest();", "before"),
+    (r"code = input\.read_u8\(\)\?;", 2, "let ghost rl = input.rest().len(); let ghost s0 = input.rest();", "before"),
+    (r"code = input\.read_u8\(\)\?;", 1, PP_CTRL),
+    (r"code = input\.read_u8\(\)\?;", 2, PP_CTRL),
+    (r"return Err\(Error::RdpError\(RdpError::new\(RdpErrorKind::InvalidData, \"Run out of scanline\"\)\)\)", 1, PP_OVERRUN, "before"),
+    (r"return Err\(Error::RdpError\(RdpError::new\(RdpErrorKind::InvalidData, \"Run out of scanline\"\)\)\)", 2, PP_OVERRUN, "before"),
+    (r"return Err\(Error::RdpError\(RdpError::new\(RdpErrorKind::InvalidData, \"Run out of scanline\"\)\)\)", 3, PP_OVERRUN, "before"),
+    (r"return Err\(Error::RdpError\(RdpError::new\(RdpErrorKind::InvalidData, \"Run out of scanline\"\)\)\)", 4, PP_OVERRUN, "before"),
+    (r"color = input\.read_u8\(\)\? as i8;", 1, "let ghost s0 = input.rest();", "before"),
+    (r"color = input\.read_u8\(\)\? as i8;", 1, """proof { lemma_i8u8(s0[0]); cons = cons + 1; assert(input.rest() =~= ls.skip(cons as int));
+    assert(scan(s0, width as nat, prev, collen as nat, replen as nat, last, acc, (cons - 1) as nat)
+        == scan(s0.skip(1), width as nat, prev, (collen - 1) as nat, replen as nat, s0[0] as int, acc.push(plane_out(prev, acc.len() as int, s0[0] as int)), cons));
+    last = s0[0] as int; acc = acc.push(s0[0]); }"""),
+    (r"output\[out as usize\] = color as u8;", 2, PP_RUN, "before"),
+    (r"x = input\.read_u8\(\)\?;", 1, "let ghost s0 = input.rest();", "before"),
+    (r"x = x >> 1;", 1, "proof { assert(x >> 1 <= 127) by(bit_vector); }", "before"),
+    (r"x = \(output\[\(last_line \+ \(indexw \* 4\)\) as usize\] as i32 \+ color as i32\) as u8;", 1, """proof { cons = cons + 1; assert(input.rest() =~= ls.skip(cons as int));
+    lemma_shr1(s0[0]);
+    assert(color as int == delta_of(s0[0]));
+    lemma_trunc((output@[last_line + indexw * 4] as i32 + color as i32) as i32);
+    assert(scan(s0, width as nat, prev, collen as nat, replen as nat, last, acc, (cons - 1) as nat)
+        == scan(s0.skip(1), width as nat, prev, (collen - 1) as nat, replen as nat, color as int, acc.push(plane_out(prev, acc.len() as int, color as int)), cons));
+    last = color as int; acc = acc.push(plane_out(prev, acc.len() as int, last)); }""", "before"),
+    (r"x = \(output\[\(last_line \+ \(indexw \* 4\)\) as usize\] as i32 \+ color as i32\) as u8;", 2,
+     "proof { lemma_trunc((output@[last_line + indexw * 4] as i32 + color as i32) as i32); }\n" + PP_RUN, "before"),
+    (r"indexh \+= 1;", 1, """proof {
+    assert(decode_scanline(ls, width as nat, prev) == Some((acc, cons)));
+    assert(ls.skip(cons as int) =~= b.skip((consumed + cons) as int));
+    assert(this_line == (height - 1 - indexh) * width * 4);
+    assert forall|i: int, j: int| 0 <= i < indexh + 1 && 0 <= j < width implies output@[((height - 1 - i) * width + j) * 4] == #[trigger] lines.push(acc)[i][j] by {
+        if i < indexh {
+            lemma_row_pos(height as int, width as int, i, indexh as int, j);
+            assert(lines.push(acc)[i] == lines[i]);
+        } else {
+            assert(((height - 1 - i) * width + j) * 4 == this_line + j * 4);
+        }
+    }
+    lines = lines.push(acc); consumed = consumed + cons;
+}""", "before"),
 ]
 
 UNIT = Unit("codec", ["base.rs"], [
     codec_specs,
+    planar_specs,
     Fn(RLE, "process_plane", mod="rle", props=["C08"], nloops=7,
        requires=["width as int * height as int * 4 <= old(output)@.len() + 3", "width as int * height as int * 4 <= usize::MAX"],
-       ensures=[("C08", "len", "final(output)@.len() == old(output)@.len()")],
-       loops=PP_LOOPS, hints=PP_HINTS),
-    Fn(RLE, "rle_32_decompress", mod="rle", props=["C08"],
-       ensures=[("C08", "len", "final(output)@.len() == old(output)@.len()")],
+       ensures=[("C08", "len", "final(output)@.len() == old(output)@.len()"),
+                ("C09", "plane-frame", "forall|k: int| 0 <= k < old(output)@.len() && k % 4 != 0 ==> #[trigger] final(output)@[k] == old(output)@[k]"),
+                ("C09", "plane-frame-tail", "r is Ok ==> forall|k: int| width as int * height as int * 4 <= k < old(output)@.len() ==> #[trigger] final(output)@[k] == old(output)@[k]"),
+                ("C09", "plane-conformant", "r is Ok ==> decode_plane(old(input).rest(), width as nat, height as nat) is Some"),
+                ("C09", "plane-consumed-bound", "r is Ok ==> decode_plane(old(input).rest(), width as nat, height as nat)->Some_0.1 <= old(input).rest().len()"),
+                ("C09", "plane-consumed", "r is Ok ==> final(input).rest() == old(input).rest().skip(decode_plane(old(input).rest(), width as nat, height as nat)->Some_0.1 as int)"),
+                ("C09", "plane-exact", "r is Ok ==> forall|i: int, j: int| 0 <= i < height && 0 <= j < width ==> final(output)@[((height - 1 - i) * width + j) * 4] == #[trigger] decode_plane(old(input).rest(), width as nat, height as nat)->Some_0.0[i][j]")],
+       pre=PP_PRE, loops=PP_LOOPS, hints=PP_HINTS),
+    Fn(RLE, "rle_32_decompress", mod="rle", props=["C08", "C09"],
+       ensures=[("C08", "len", "final(output)@.len() == old(output)@.len()"),
+                ("C09", "planar-header", "r is Ok ==> input@.len() >= 1 && input@[0] == 0x10"),
+                ("C09", "planar-exact", "r is Ok && width > 0 && height > 0 ==> planar_image(input@, width as nat, height as nat) is Some && final(output)@.take(width as int * height as int * 4) == planar_image(input@, width as nat, height as nat)->Some_0"),
+                ("C09", "planar-tail", "r is Ok ==> forall|k: int| width as int * height as int * 4 <= k < old(output)@.len() ==> #[trigger] final(output)@[k] == old(output)@[k]")],
        hints=[(r"if \(output\.len\(\) as u128\) <", 1, "proof { assert(0 <= width as int * height as int <= 0xffff_ffff * 0xffff_ffff) by(nonlinear_arith) requires 0 <= width as int <= 0xffff_ffff, 0 <= height as int <= 0xffff_ffff; }", "before"),
-              (r"process_plane\(&mut input_cursor, width, height, &mut output\[3\.\.\]\)", 1, "proof { assert(width as int * height as int >= 1) by(nonlinear_arith) requires width as int >= 1, height as int >= 1; }", "before")]),
+              (r"process_plane\(&mut input_cursor, width, height, &mut output\[3\.\.\]\)", 1, """proof { assert(width as int * height as int >= 1) by(nonlinear_arith) requires width as int >= 1, height as int >= 1; }
+let ghost w = width as nat; let ghost h = height as nat; let ghost n4 = width as int * height as int * 4;
+let ghost s0 = input_cursor.rest(); let ghost o0 = output@;
+proof { assert(s0 =~= input@.skip(1)); }""", "before"),
+              (r"process_plane\(&mut input_cursor, width, height, &mut output\[3\.\.\]\)", 1, "let ghost s1 = input_cursor.rest(); let ghost o1 = output@;"),
+              (r"process_plane\(&mut input_cursor, width, height, &mut output\[2\.\.\]\)", 1, "let ghost s2 = input_cursor.rest(); let ghost o2 = output@;"),
+              (r"process_plane\(&mut input_cursor, width, height, &mut output\[1\.\.\]\)", 1, "let ghost s3 = input_cursor.rest(); let ghost o3 = output@;"),
+              (r"process_plane\(&mut input_cursor, width, height, &mut output\[0\.\.\]\)", 1, """proof {
+    let pa = decode_plane(s0, w, h)->Some_0.0; let pr = decode_plane(s1, w, h)->Some_0.0;
+    let pg = decode_plane(s2, w, h)->Some_0.0; let pb = decode_plane(s3, w, h)->Some_0.0;
+    let planes = seq![pb, pg, pr, pa];
+    assert(planar_decode(input@, w, h) == Some(planes));
+    let img = planar_image(input@, w, h)->Some_0;
+    assert(img.len() == n4) by { assert((w * h * 4) as int == n4) by(nonlinear_arith) requires w == width as int, h == height as int, n4 == width as int * height as int * 4; }
+    assert forall|k: int| 0 <= k < n4 implies output@[k] == #[trigger] img[k] by {
+        lemma_pixel_index(w as int, h as int, k);
+        let p = k / 4; let i = h - 1 - p / (w as int); let j = p % (w as int);
+        assert(img[k] == planes[k % 4][i][j]);
+        if k % 4 == 3 { assert(o1.subrange(3, o1.len() as int)[((h - 1 - i) * w + j) * 4] == pa[i][j]); assert(o2[k] == o1[k]); assert(o3[k] == o2[k]); assert(output@[k] == o3[k]); }
+        else if k % 4 == 2 { assert(o2.subrange(2, o2.len() as int)[((h - 1 - i) * w + j) * 4] == pr[i][j]); assert(o3[k] == o2[k]); assert(output@[k] == o3[k]); }
+        else if k % 4 == 1 { assert(o3.subrange(1, o3.len() as int)[((h - 1 - i) * w + j) * 4] == pg[i][j]); assert(output@[k] == o3[k]); }
+        else { assert(output@.subrange(0, output@.len() as int)[((h - 1 - i) * w + j) * 4] == pb[i][j]); }
+    }
+    assert(output@.take(n4) =~= img);
+    assert forall|k: int| n4 <= k < o0.len() implies #[trigger] output@[k] == o0[k] by {
+        assert(o1[k] == o0[k]); assert(o2[k] == o1[k]); assert(o3[k] == o2[k]); assert(output@[k] == o3[k]);
+    }
+}""")]),
     RLE16,
     Fn(RLE, "rgb565torgb32", mod="rle", props=["C08", "C09"], ret="result",
        requires=["width * height <= input@.len()", "width * height * 4 <= usize::MAX"],
